@@ -19,7 +19,6 @@ package expr
 import (
 	"fmt"
 	"runtime/debug"
-	"strconv"
 	"strings"
 
 	"github.com/antlr4-go/antlr/v4"
@@ -138,11 +137,7 @@ func (l *ParseTreeListener) parseInnerExpr(key string, ctx IInnerExprContext) {
 	}
 	switch {
 	case ctx.Value().STRING() != nil:
-		s, err := strconv.Unquote(ctx.Value().STRING().GetText())
-		if err != nil {
-			panic(err)
-		}
-		l.Result[fieldKey] = s
+		l.Result[fieldKey] = unquote(ctx.Value().STRING().GetText())
 	case ctx.Value().IDENT() != nil:
 		l.Result[fieldKey] = ctx.Value().IDENT().GetText()
 	case ctx.Value().INTEGER() != nil:
@@ -153,4 +148,38 @@ func (l *ParseTreeListener) parseInnerExpr(key string, ctx IInnerExprContext) {
 		l.parseExpr(fieldKey, ctx.Value().Expr())
 	default: // for linter
 	}
+}
+
+// unquote removes the surrounding quotes of a STRING token and resolves the
+// escape sequences admitted by the lexer rule (\" \\ \/ \b \f \n \r \t);
+// every other character, including a raw line break, stands for itself.
+func unquote(text string) string {
+	text = text[1 : len(text)-1]
+	if !strings.Contains(text, "\\") {
+		return text
+	}
+	var sb strings.Builder
+	for i := 0; i < len(text); i++ {
+		c := text[i]
+		if c != '\\' || i+1 == len(text) {
+			sb.WriteByte(c)
+			continue
+		}
+		i++
+		switch text[i] {
+		case 'b':
+			sb.WriteByte('\b')
+		case 'f':
+			sb.WriteByte('\f')
+		case 'n':
+			sb.WriteByte('\n')
+		case 'r':
+			sb.WriteByte('\r')
+		case 't':
+			sb.WriteByte('\t')
+		default: // '"', '\\', '/'
+			sb.WriteByte(text[i])
+		}
+	}
+	return sb.String()
 }
